@@ -245,18 +245,24 @@ inductive Sub where
   | c3 (v : Ctx3)
 deriving Repr, DecidableEq
 
-/-- gsub.go:41 `gsubReaders[10*meta.LookupType+format]` is a `uint16` key: with lookup type 5 the
-format words 11, 12, 13 (keys 6_1, 6_2, 6_3), 21 (7_1), 31 (8_1) and, through the wrap-around,
-65497, 65498 (1_1, 1_2), 65507 (2_1), 65517 (3_1), 65527 (4_1) select ANOTHER reader -/
+/-- BEFORE the repair of the dispatcher (/repo 8867078) the `uint16` key
+`gsubReaders[10*meta.LookupType+format]` (gsub.go:41) was looked up without a range check: with
+lookup type 5 the format words 11, 12, 13 (keys 6_1, 6_2, 6_3), 21 (7_1), 31 (8_1) and, through the
+wrap-around, 65497, 65498 (1_1, 1_2), 65507 (2_1), 65517 (3_1), 65527 (4_1) selected ANOTHER
+reader.  Kept only to state that finding (`gsub5Old`). -/
 def otherKey (format : Nat) : Bool :=
   [61, 62, 63, 71, 81, 11, 12, 21, 31, 41].contains ((50 + format) % 65536)
 
 /-- `readGsubSubtable(p, pos, &LookupMetaInfo{LookupType: 5})`: seek to `pos`, read the format
-word, call the reader with the parser at `pos + 2`.  A format word that selects the reader of another
-lookup type (`otherKey`) is outside this model: `err "other-reader"`. -/
-def gsub5 (b : Bytes) (pos : Nat) : Outcome (Sub × Cost) := do
+word, look up the key `10*5 + format` (`uint16`), call the reader with the parser at `pos + 2`.
+`old = false` is the code as it is now (gsub.go:41-42
+`if !ok || meta.LookupType > 9 || format > 9 { return invalid }`): every format word other than 1,
+2, 3 is invalid.  `old = true` is the code before that repair, where a colliding key
+(`otherKey`) ran the reader of another lookup type: `err "other-reader"` (outside this model). -/
+def gsub5G (old : Bool) (b : Bytes) (pos : Nat) : Outcome (Sub × Cost) := do
   let format ← readU16 "gsub.go:36#ReadUint16" b pos
-  if format = 1 then do
+  if old = false ∧ format > 9 then .err "invalid"
+  else if format = 1 then do
     let (v, c) ← readSeqContext1 b (pos + 2) pos
     .ok (.c1 v, c.tick)
   else if format = 2 then do
@@ -265,7 +271,13 @@ def gsub5 (b : Bytes) (pos : Nat) : Outcome (Sub × Cost) := do
   else if format = 3 then do
     let (v, c) ← readSeqContext3 b (pos + 2) pos
     .ok (.c3 v, c.tick)
-  else if otherKey format then .err "other-reader"
+  else if old = true ∧ otherKey format = true then .err "other-reader"
   else .err "invalid"
+
+/-- the dispatcher as it is in the working tree (repaired) -/
+def gsub5 (b : Bytes) (pos : Nat) : Outcome (Sub × Cost) := gsub5G false b pos
+
+/-- the dispatcher before the repair (kept only to state the finding) -/
+def gsub5Old (b : Bytes) (pos : Nat) : Outcome (Sub × Cost) := gsub5G true b pos
 
 end SfntV.Total.SeqCtx
